@@ -23,7 +23,7 @@ StartVal == IF Start = "default" THEN LocDefault ELSE ParseLoc(StartText).val
 
 Init == obj = StartVal /\ hist = <<>>
 Next == /\ Len(hist) < K
-        /\ \E o \in Ops : obj' = ApplyOpL(obj, o, FALSE).obj /\ hist' = Append(hist, o)
+        /\ \E o \in Ops : obj' = ApplyOpL(obj, o, FbNone).obj /\ hist' = Append(hist, o)
 Spec == Init /\ [][Next]_<<obj, hist>>
 
 TypeOK == ObjOK(obj)
@@ -31,12 +31,12 @@ RoundTrip == ObjRoundTrip(obj)
 (* maximize / minimize touch nothing but language, script, region (C07/C08)  *)
 LikelyTouchesOnlyTheTriple ==
     \A o \in {Op0("maximize"), Op0("minimize")} :
-        LET r == ApplyOpL(obj, o, FALSE).obj IN
+        LET r == ApplyOpL(obj, o, FbNone).obj IN
         [r EXCEPT !.id = [r.id EXCEPT !.lang = obj.id.lang, !.script = obj.id.script, !.region = obj.id.region]] = obj
 (* minimizing twice = once; maximizing twice = once; on every reachable value *)
 Idempotent ==
-    /\ LET m == ApplyOpL(obj, Op0("maximize"), FALSE).obj IN ApplyOpL(m, Op0("maximize"), FALSE).obj = m
-    /\ LET n == ApplyOpL(obj, Op0("minimize"), FALSE).obj IN ApplyOpL(n, Op0("minimize"), FALSE).obj = n
+    /\ LET m == ApplyOpL(obj, Op0("maximize"), FbNone).obj IN ApplyOpL(m, Op0("maximize"), FbNone).obj = m
+    /\ LET n == ApplyOpL(obj, Op0("minimize"), FbNone).obj IN ApplyOpL(n, Op0("minimize"), FbNone).obj = n
 
 HistCase == [k |-> "hist", start |-> StartText, startval |-> StartVal, steps |-> StepsOfL(StartVal, hist)]
 EmitHist == hist # <<>> => PrintT("CASE " \o ToJson(HistCase))
